@@ -19,7 +19,9 @@ def gen_case(rng, n_ops, faults=False, crashes=False):
     out = [f"reset {rng.choice([32, 32, 32, 3, 4])}"]
     users = ["U1", "U2", "U3", "U4"]
     for u in users:
-        out.append(f"user {u} {rng.choice(['JRWPAS', 'JRWPAS', 'JRWPS', 'JRWP', 'N', 'JRWPASDO'])} {rng.choice(['JR', 'N', 'JRW'])}"
+        # default access of an account as the server stores it (user.go:97-117, topic.go:2184-2203): within JRWPAS / JRWPA, and
+        # with A unless it is N
+        out.append(f"user {u} {rng.choice(['JRWPAS', 'JRWPAS', 'JRWPA', 'JRWA', 'N', 'JRPAS'])} {rng.choice(['JRA', 'N', 'JRWA'])}"
                    + (" state=susp" if u == "U4" and rng.chance(1, 4) else ""))
     sess = [("S1", "U1", "auth", ""), ("S2", "U2", "auth", ""), ("S3", "U3", "auth", ""), ("S4", "U1", "auth", ""),
             ("S5", "U2", "auth", "bg"), ("S6", "U4", "anon", ""), ("S7", "U3", "root", "")]
@@ -36,6 +38,17 @@ def gen_case(rng, n_ops, faults=False, crashes=False):
             # requests other than {sub} mostly come from sessions which are attached
             s = rng.choice(sorted(att[t]))
             su, lvl = [(x[1], x[2]) for x in sess if x[0] == s][0]
+        # peer-to-peer: the topic is addressed by the other user's name; the stored topic is P:<a>:<b>
+        p2p = k >= 4 and rng.chance(1, 4)
+        if p2p:
+            peer = rng.choice([u for u in users if u != su] * 6 + [su])
+            t = peer
+            key = "P:" + ":".join(sorted([su, peer]))
+            if k >= 22 and att.get(key) and rng.chance(3, 4):
+                s = rng.choice(sorted(att[key]))
+                su, lvl = [(x[1], x[2]) for x in sess if x[0] == s][0]
+                others = [u for u in key[2:].split(":") if u != su]
+                t = others[0] if others else su
         pre = []
         if t and faults and rng.chance(1, 6):
             pre.append(f"fail {1 + rng.below(4)}")
@@ -46,7 +59,9 @@ def gen_case(rng, n_ops, faults=False, crashes=False):
             asx = f" as={rng.choice(users)}" + rng.choice(["", ":auth", ":anon", ":root"])
         elif rng.chance(1, 60):
             asx = f" as={rng.choice(users)}"
-        if ntop == 0 or k < 4:
+        if p2p:
+            asx = ""        # on-behalf-of requests are exercised on group topics only
+        if (ntop == 0 and not p2p) or k < 4:
             if ntop >= 3:
                 continue
             o = f"newgrp {s}"
@@ -115,15 +130,15 @@ def gen_case(rng, n_ops, faults=False, crashes=False):
             out.append(rng.choice(["fg S5", "fg S5", f"drop {s}", "drop S5"]))
             continue
         else:
-            out.append(f"unload {t}")
+            out.append(f"unload {key if p2p else t}")
             if crashes and rng.chance(1, 3):
                 out.append("restart")
                 att = {}
             continue
         if o.startswith("sub "):
-            att.setdefault(t, set()).add(s)
+            att.setdefault(key if p2p else t, set()).add(s)
         elif o.startswith("leave ") or o.startswith("deltopic "):
-            att.get(t, set()).discard(s)
+            att.get(key if p2p else t, set()).discard(s)
         out.extend(pre)
         out.append(o + asx)
         if any(p.startswith("crash") for p in pre) and rng.chance(1, 2):
@@ -141,7 +156,7 @@ def _preamble(rng, maxsubs=32, modes=None):
     out = [f"reset {maxsubs}"]
     modes = modes or {}
     for u in ("U1", "U2", "U3", "U4"):
-        out.append(f"user {u} {modes.get(u, 'JRWPAS')} {rng.choice(['N', 'JR'])}")
+        out.append(f"user {u} {modes.get(u, 'JRWPAS')} {rng.choice(['N', 'JRA'])}")
     for s, u, lvl, bg in (("S1", "U1", "auth", ""), ("S2", "U2", "auth", ""), ("S3", "U3", "auth", ""), ("S4", "U1", "auth", ""),
                           ("S5", "U2", "auth", "bg"), ("S6", "U4", "anon", ""), ("S7", "U3", "root", "")):
         out.append(f"sess {s} {u} {lvl} {bg}".strip())
@@ -158,7 +173,9 @@ def _maybe_restart(rng, out, p=6):
 def scenario(rng):
     """one short history aimed at a clause of the properties, with its parameters drawn at random; restarts are sprinkled in so
     that the same clause is also exercised on a reloaded topic"""
-    k = rng.below(11)
+    k = rng.below(14)
+    if k >= 11:
+        return scenario_p2p(rng, k)
     out = _preamble(rng, maxsubs=rng.choice([32, 32, 3]))
     owner = rng.choice(["S1", "S2", "S3"])
     ou = {"S1": "U1", "S2": "U2", "S3": "U3"}[owner]
@@ -182,8 +199,8 @@ def scenario(rng):
         out.append(f"get {ms} {T} sub")
     elif k == 1:    # bans and limits stick
         out.append(f"sub {ms} {T}")
-        out.append(f"setsub {owner} {T} user={mu} mode={rng.choice(['N', 'N', 'RWP', 'J', 'JR'])}")
-        out.append(rng.choice([f"delsub {owner} {T} {mu}", f"leave {ms} {T} unsub=1", f"deltopic {ms} {T}"]))
+        out.append(f"setsub {owner} {T} user={mu} mode={rng.choice(['N', 'N', 'N', 'RWP', 'J', 'JR'])}")
+        out.append(rng.choice([f"delsub {owner} {T} {mu}", f"delsub {owner} {T} {mu}", f"leave {ms} {T} unsub=1", f"deltopic {ms} {T}", f"deltopic {ms} {T}"]))
         if _maybe_restart(rng, out, 3):
             out.append(f"sub {owner} {T}")
         out.append(f"sub {ms} {T}" + rng.choice(["", " mode=JRWPS", " mode=JRWPASDO"]))
@@ -291,17 +308,97 @@ def scenario(rng):
     return out
 
 
+def scenario_p2p(rng, k):
+    """peer-to-peer clauses: naming per recipient, push addressing, two participants only, modes within JRWPA with A, numbering
+    and cached data across the load paths of initTopicP2P (new topic / one subscription missing / both present)"""
+    out = _preamble(rng, modes={u: rng.choice(["JRWPAS", "JRWPAS", "JRWPA", "JRPA", "N"]) for u in ("U1", "U2", "U3", "U4")})
+    (sa, ua), (sb, ub) = rng.choice([(("S1", "U1"), ("S2", "U2")), (("S2", "U2"), ("S3", "U3")), (("S3", "U3"), ("S1", "U1")),
+                                     (("S7", "U3"), ("S4", "U1")), (("S1", "U1"), ("S5", "U2")), (("S6", "U4"), ("S1", "U1"))])
+    key = "P:" + ":".join(sorted([ua, ub]))
+    third = [u for u in ("U1", "U2", "U3", "U4") if u not in (ua, ub)][0]
+    n = [0]
+
+    def pub(s, peer):
+        n[0] += 1
+        out.append(f"pub {s} {peer} C{n[0]}" + rng.choice(["", "", " noecho=1"]))
+
+    def reload():
+        if rng.chance(1, 2):
+            out.append("restart")
+        else:
+            out.append(f"leave {sa} {ub}")
+            out.append(f"leave {sb} {ua}")
+            out.append(f"unload {key}")
+
+    out.append(f"sub {sa} {ub}" + rng.choice(["", " mode=JRWPA", " mode=JRW", " mode=JRWPASDO", " priv=pvA", " mode=JRWP priv=pvA", " user=" + ub]))
+    if k == 11:     # the life of a p2p chat: both attach, talk, one leaves for good, is invited again, comes back
+        out.append(f"sub {sb} {ua}" + rng.choice(["", " mode=JRWPA", " priv=pvB", " mode=JRP"]))
+        for _ in range(1 + rng.below(3)):
+            pub(rng.choice([sa, sb]), ub if rng.chance(1, 2) else ua)
+        pub(sa, ub)
+        out.append(rng.choice([f"leave {sb} {ua} unsub=1", f"deltopic {sb} {ua}", f"leave {sb} {ua} unsub=1"]))
+        pub(sa, ub)
+        out.append(rng.choice([f"setsub {sa} {ub} user={ub}", f"setsub {sa} {ub} user={ub} mode={rng.choice(['JRWPA', 'JRW', 'JRWPASD', 'N'])}",
+                               f"get {sa} {ub} sub", f"note {sa} {ub} read {n[0]}"]))
+        if _maybe_restart(rng, out, 5):
+            out.append(f"sub {sa} {ub}")
+        out.append(f"sub {sb} {ua}" + rng.choice(["", " mode=JRWPA", " priv=pvC"]))
+        pub(sa, ub)
+        pub(sb, ua)
+        out.append(f"get {sb} {ua} desc")
+        out.append(f"get {sa} {ub} sub")
+        out.append(f"get {sb} {ua} data")
+    elif k == 12:   # the load paths: the topic is dropped from memory and brought back by either participant
+        out.append(f"sub {sb} {ua}" + rng.choice(["", " priv=pvB"]))
+        for _ in range(1 + rng.below(4)):
+            pub(rng.choice([sa, sb]), ub if rng.chance(1, 2) else ua)
+        pub(sa, ub)
+        pub(sb, ua)
+        who = rng.choice(["a", "b", "none"])
+        if who == "a":
+            out.append(f"leave {sa} {ub} unsub=1")
+        elif who == "b":
+            out.append(f"leave {sb} {ua} unsub=1")
+        reload()
+        first = rng.choice([(sa, ub), (sb, ua)])
+        out.append(f"sub {first[0]} {first[1]}" + rng.choice(["", " mode=JRWPA", " priv=pvD"]))
+        out.append(f"get {first[0]} {first[1]} desc")
+        pub(first[0], first[1])
+        other = (sb, ua) if first[0] == sa else (sa, ub)
+        out.append(f"sub {other[0]} {other[1]}")
+        pub(other[0], other[1])
+        out.append(f"get {other[0]} {other[1]} desc")
+        out.append(f"get {first[0]} {first[1]} data")
+        out.append(f"get {first[0]} {first[1]} sub")
+    else:           # what a participant cannot do: a third user, modes beyond JRWPA or without A, the peer's subscription, the description
+        out.append(f"sub {sb} {ua}")
+        steps = [f"setsub {sa} {ub} user={third}", f"setsub {sa} {ub} user={third} mode=JRWPA", f"setsub {sa} {ub} mode={rng.choice(['JRW', 'JRWPASDO', 'JRWPS', 'JRWPD', 'N', 'RWP'])}",
+                 f"setsub {sa} {ub} user={ub} mode={rng.choice(['JRW', 'JRWPASDO', 'JRWPS', 'N', 'JRWPD'])}", f"delsub {sa} {ub} {ub}",
+                 f"setdesc {sa} {ub} pub=pbX", f"setdesc {sa} {ub} priv=pvX", f"setdesc {sb} {ua} auth=JRWPS", f"sub {sa} {ub}", f"sub {sb} {ua}",
+                 f"deltopic {sa} {ub}", f"deltopic {sb} {ua} hard=1", f"leave {sa} {ub}", f"leave {sb} {ua} unsub=1",
+                 f"sub S{rng.choice([1, 2, 3])} {ua}", f"setsub {sb} {ua} mode=JP", f"get {sa} {ub} sub", f"unload {key}"]
+        for _ in range(4 + rng.below(6)):
+            out.append(rng.choice(steps))
+            if rng.chance(1, 4):
+                pub(rng.choice([sa, sb]), ub if rng.chance(1, 2) else ua)
+            _maybe_restart(rng, out, 10)
+        out.append(f"get {sa} {ub} desc")
+        out.append(f"get {sb} {ua} desc")
+    return out
+
+
 # ---------------------------------------------------------------------------------------------- stream definition
 
 def gen_world(rng, tier):
-    ncases = 600 if tier == "thorough" else 400
+    ncases = 600 if tier == "thorough" else 420
     for i in range(ncases):
-        if i % 4 == 3:
+        if i % 3 == 2:
             for l in scenario(rng):
                 yield l
             continue
-        faults = i % 3 == 1
-        crashes = i % 3 == 2
+        c = i // 3 * 2 + i % 3          # index among the random cases
+        faults = c % 3 == 1
+        crashes = c % 3 == 2
         for l in gen_case(rng, 30 + rng.below(90), faults=faults, crashes=crashes):
             yield l
 
